@@ -391,12 +391,17 @@ let c12 (rest : string) : string =
       | ["pf"; _] -> Lifecycle.EPIllegal Lifecycle.IFrameUnmapped
       | ["pz"] -> Lifecycle.EPEmpty | ["eof"] -> Lifecycle.EEof
       | ["close"] -> Lifecycle.EClose | ["closee"] -> Lifecycle.ECloseErr | ["drop"] -> Lifecycle.EDrop | ["abort"] -> Lifecycle.EAbort
+      | ["pw"; _] -> Lifecycle.EPEmpty (* replaced below: classified from the bytes by the model *)
       | _ -> failwith ("c12: bad event " ^ e) in
     (* a second open frame is the IOpenAgain violation only once the connection is open *)
     let ev = match ev, s with
       | Lifecycle.EPOpen, Lifecycle.SOpened -> Lifecycle.EPIllegal Lifecycle.IOpenAgain
       | _ -> ev in
-    let (s', o) = Lifecycle.step s ev in
+    let (s', o) = match words e with
+      | ["pw"; hx] ->
+          let bs = bytes_of_hex hx in
+          WireEvents.on_frame_bytes (nat_of_int (Stdlib.List.length bs + 1)) s bs
+      | _ -> Lifecycle.step s ev in
     Buffer.add_string buf (c12_obs o); Buffer.add_string buf " ; "; s') (Lifecycle.SStart []) evs in
   let fin = match s with
     | Lifecycle.SHdrSent | Lifecycle.SOpenSent | Lifecycle.SOpenFailed -> "open=PENDING"
